@@ -968,7 +968,10 @@ fn expect_option(text: &str, style: Style, tag: Tag, inner: Expect) -> Expect {
         return wrap_some(inner, true);
     }
     match style {
-        Style::Plain | Style::Literal | Style::Folded => wrap_some(inner, nc != Cls::No),
+        Style::Plain => wrap_some(inner, nc != Cls::No),
+        // rustdoc of deserialize_option: None is "a scalar that is empty-unquoted / `~` / `null`
+        // in plain style" - a block scalar spelling `~` / `null` is a string, an empty one may be None
+        Style::Literal | Style::Folded => wrap_some(inner, text.is_empty()),
         Style::Single | Style::Double => wrap_some(inner, false),
     }
 }
